@@ -319,3 +319,27 @@ package compile
 //@ func (*Compiler).getIdentities
 //@   requires c != nil && node != nil && forallstr(k, implies(inmap(c.identities, k), c.identities[k] != nil))
 //@   modifies *
+
+// ---------------------------------------------------------------------------
+// Deviations (C14): the properties of one deviate statement are processed one after the other - each is checked
+// against the target AS LEFT BY the properties before it, then applied - so that the outcome equals editing the
+// target's source property by property. Ghost counters: devChecked = properties accepted by isAllowed so far,
+// devApplied = properties applied so far.
+//@ func (deviateProcessor).isAllowed
+//@   params target property ec
+//@   requires ghost("devChecked") == ghost("devApplied")
+//@   modifies ghost("devChecked")
+//@   ensures implies(result == nil, ghost("devChecked") == old(ghost("devChecked")) + 1) && implies(result != nil, ghost("devChecked") == old(ghost("devChecked")))
+//@ func (deviateProcessor).propertyAction
+//@   params target property
+//@   requires ghost("devChecked") == ghost("devApplied") + 1
+//@   modifies *
+//@   ensures ghost("devApplied") == old(ghost("devApplied")) + 1 && ghost("devChecked") == old(ghost("devChecked"))
+//@ func (deviateProcessor).finalAction
+//@   params target property
+//@   requires ghost("devChecked") == ghost("devApplied")
+//@   modifies *
+//@ func (*Compiler).doDeviate
+//@   requires c != nil && target != nil && deviate != nil && dp != nil && ghost("devChecked") == ghost("devApplied")
+//@   modifies *
+//@   loop 0 invariant ghost("devChecked") == ghost("devApplied")
